@@ -629,6 +629,12 @@ def run(ctx):
         if s['auto'] or s.get('entry'):
             continue
         for k, en in entries.items():
+            # only a site that is no longer in the entry's function counts as "moved": a site that stayed where it was and whose
+            # operands changed is a different site (e.g. nth(line) instead of nth(line - 1)) and must be reviewed afresh
+            same_fn = k.split('|')[0] == stable_id(s['fn'].id)
+            alias = isinstance(en['coarse'], tuple) and s['coarse'] in en['coarse'][1:]     # a reviewed equivalent spelling, listed explicitly
+            if same_fn and not alias:
+                continue
             if not en['used'] and en['coarse'] and (s['coarse'] == en['coarse'] or (isinstance(en['coarse'], tuple) and s['coarse'] in en['coarse'])):
                 s['entry'] = k
                 s['moved'] = True
@@ -638,6 +644,8 @@ def run(ctx):
         if s['auto'] or s.get('entry') or not s.get('tcoarse'):
             continue
         for k, en in entries.items():
+            if k.split('|')[0] == stable_id(s['fn'].id):
+                continue
             if not en['used'] and en.get('tcoarse') and en['tcoarse'] == s['tcoarse']:
                 s['entry'] = k
                 s['moved'] = True
